@@ -243,6 +243,9 @@ pub enum Action {
     /// change the password rows served to auth_query
     #[serde(rename = "set_shadow")]
     SetShadow { host: String, user: String, password: String },
+    /// change the password a server accepts for a role
+    #[serde(rename = "set_host_user")]
+    SetHostUser { host: String, user: String, password: String },
 }
 
 #[derive(Clone, Debug, Serialize, Deserialize, PartialEq, Default)]
